@@ -148,3 +148,14 @@ Definition history_mismatches
   (cs : list (int * mdata * list (str * list str) * mdata * list (str * list str) * mdata)) : list N :=
   flat_map (fun c => match c with (i, pre, hw, hseen, tw, tseen) =>
      if md_same (md_write pre hw) hseen && md_same (md_write [] tw) tseen then [] else [n_of i] end) cs.
+
+(* declaration-order stream: the kind goa computed for the method (MethodExpr.Stream)
+   from the order its DSL declared the parts *)
+Definition skind_eqb (a b : skind) : bool :=
+  match a, b with Unary, Unary | ClientStream, ClientStream | ServerStream, ServerStream | Bidi, Bidi => true | _, _ => false end.
+
+Definition order_mismatches (cs : list (int * list decl * skind)) : list N :=
+  flat_map (fun c => match c with (i, ds, observed) =>
+     if skind_eqb (kind_of_decls ds) observed
+        && skind_eqb observed (designed_kind (has_decl DStreamingPayload ds) (has_decl DStreamingResult ds))
+     then [] else [n_of i] end) cs.
